@@ -86,6 +86,22 @@ EXTRA_TECH = {
 for k, v in EXTRA_TECH.items():
     t, a, b, c = CHECKS[k]
     CHECKS[k] = (t + v, a, b, c)
+# additions of the seventh round
+EXTRA7 = {
+ "C06": "; every ordered pair of jump spellings assembled adjacent / behind a label / after a CMP: the second must be emitted as when it stands alone (metamorphic: emission is context free); conditional jumps closing loops that are counted in memory",
+ "C08": "; calls between PUSH and POP, procedures that pop what the caller pushed or leave something behind (return with SP above / below its value at the call); loops counted in memory",
+ "C09": "; C08's structured programs incl. procedures that return with SP away from its value at the call",
+ "C13": "; family of programs whose macro recursion only appears through a redefinition or after a successful use of a by-name parameter (child process, both builds)",
+ "C15": "; the late-recursion family of C13 (refused with a diagnostic, never a stack overflow)",
+ "C16": "; end of input behind a final newline / blank lines; undefined jumps behind and between nested macro uses",
+ "C17": "; the same print statements executed again in a loop after DS, a register, memory and the flags changed; programs with procedures",
+ "C18": "; histories of 3-6 calls over a palette of 2-3 calls (the same service again with the same DL / AL / CX after another one ran)",
+ "C19": "; the two programs of an isolation case define the same code label names at different places and jump to them",
+ "C20": "; a repeated string instruction before the program sets the trap flag",
+}
+for k, v in EXTRA7.items():
+    t, a, b, c = CHECKS[k]
+    CHECKS[k] = (t + v, a, b, c)
 
 REASON_WIP = "check not built yet in this revision of /verif (work in progress; see DESIGN.md section 7 for the order of work)"
 ALL = ["C%02d" % i for i in range(1, 21)]
